@@ -3,6 +3,7 @@ import Bt.Driver.Weigh
 import Bt.Driver.Select
 import Bt.Driver.Stack
 import Bt.Driver.Sched
+import Bt.Driver.Program
 /- The driver: one request per line on stdin, one answer per line on stdout. -/
 open Bt.Driver
 
@@ -10,6 +11,7 @@ def dispatch (line : String) : String :=
   let l := line.trimAscii.toString
   match l.splitOn " " with
   | "step" :: _ => handleStep (l.drop 5).toString
+  | "wholerun" :: _ => handleWholeRun (l.drop 9).toString
   | "paperseq" :: _ => handlePaperSeq (l.drop 9).toString
   | "session" :: _ => handleSession (l.drop 8).toString
   | "sched" :: _ => handleSched (l.drop 6).toString
